@@ -316,6 +316,14 @@ func (e *Enc) axioms() {
 			}
 		}
 	}
+	for _, x := range e.P.ExtraOuts {
+		for i := 0; i < x.Results; i++ {
+			f := fmt.Sprintf("out_%s_%d", x.Prov, i)
+			if _, ok := outArity[f]; !ok {
+				outArity[f] = x.Arity
+			}
+		}
+	}
 	var outs []string
 	for f := range outArity {
 		outs = append(outs, f)
